@@ -306,8 +306,4 @@ func init() {
 		"quick":    {{Tier: "hist-C09", Size: 3, Bound: 1}},
 		"thorough": {{Tier: "hist-C09", Size: 4, Bound: 1}},
 	}
-	Plans["C11"] = map[string][]Step{
-		"quick":    {{Tier: "hist-C11", Size: 3, Bound: 1}},
-		"thorough": {{Tier: "hist-C11", Size: 4, Bound: 1}},
-	}
 }
